@@ -22,6 +22,21 @@ type rangeLoop struct {
 	IsMap  bool
 	Next   *ssa.Next
 	If     *ssa.If
+	// Counting: a `for i := 0; i < len(x.f); i++` loop; any load of the same field of the same object is the list
+	Counting bool
+}
+
+// sameList: x is the list the loop walks.
+func (rl *rangeLoop) sameList(x ssa.Value) bool {
+	if x == rl.Over {
+		return true
+	}
+	if !rl.Counting {
+		return false
+	}
+	r1, b1 := loadedField(x)
+	r2, b2 := loadedField(rl.Over)
+	return r1 != "" && r1 == r2 && strip(b1) == strip(b2)
 }
 
 // rangeLoops recognises go/ssa's lowering of `for ... := range X`.
@@ -103,7 +118,7 @@ func (rl *rangeLoop) isElem(v ssa.Value) bool {
 	v = strip(v)
 	if a, ok := isDeref(v); ok {
 		if ia, ok := a.(*ssa.IndexAddr); ok {
-			return ia.X == rl.Over && ia.Index == rl.Idx
+			return rl.sameList(ia.X) && ia.Index == rl.Idx
 		}
 	}
 	if ix, ok := v.(*ssa.Index); ok {
@@ -646,22 +661,22 @@ func ruleKVFind(c *Ctx, rule string, names ...string) {
 			continue
 		}
 		c.Fns[name] = true
-		var loops []*rangeLoop
-		for _, rl := range rangeLoops(fn) {
-			if rl.Over == nil || rl.IsMap {
-				continue
-			}
-			if ref, base := loadedField(rl.Over); ref != "" && isParam(fn, base, 0) {
-				if sl, ok := rl.Over.Type().Underlying().(*types.Slice); ok && strings.HasSuffix(sl.Elem().String(), "KeyValue") {
-					loops = append(loops, rl)
-				}
-			}
-		}
+		loops := w.kvLoops(fn)
 		if len(loops) == 0 {
 			deleg := ""
 			for _, cs := range w.callsIn(fn) {
-				if set[cs.Name] && isParam(fn, callArg(cs.In, -1), 0) {
+				if !isParam(fn, callArg(cs.In, -1), 0) {
+					continue
+				}
+				if set[cs.Name] {
 					deleg = cs.Name
+					continue
+				}
+				// a private search helper on the same receiver that itself scans the list for the first matching key
+				if callee := cs.In.Common().StaticCallee(); callee != nil && w.isMain(callee) && len(w.kvLoops(callee)) > 0 {
+					if ok, _ := w.kvFindFirst(callee); ok {
+						deleg = cs.Name
+					}
 				}
 			}
 			if deleg != "" {
@@ -671,92 +686,7 @@ func ruleKVFind(c *Ctx, rule string, names ...string) {
 			}
 			continue
 		}
-		good, nExit := true, 0
-		why := ""
-		for _, rl := range loops {
-			bound := w.atom(rl.If.Cond).Key
-			isKey := func(v ssa.Value) bool {
-				v = strip(v)
-				if f, ok := v.(*ssa.Field); ok {
-					return rl.isElem(f.X) && fieldName(f.X.Type(), f.Field) == "Key"
-				}
-				if a, ok := isDeref(v); ok {
-					if fa, ok := a.(*ssa.FieldAddr); ok && fieldName(fa.X.Type(), fa.Field) == "Key" {
-						if ia, ok := fa.X.(*ssa.IndexAddr); ok {
-							return ia.X == rl.Over && ia.Index == rl.Idx
-						}
-						// the loop variable: a local cell holding a copy of the current element
-						if al, ok := fa.X.(*ssa.Alloc); ok {
-							n, okAll := 0, true
-							for _, r := range *al.Referrers() {
-								if st, ok := r.(*ssa.Store); ok && st.Addr == ssa.Value(al) {
-									n++
-									if !rl.isElem(st.Val) {
-										okAll = false
-									}
-								}
-							}
-							return n == 1 && okAll
-						}
-					}
-				}
-				return false
-			}
-			wanted := func(v ssa.Value) bool {
-				v = strip(v)
-				if _, ok := constString(v); ok {
-					return true
-				}
-				for i := 1; i < len(fn.Params); i++ {
-					if v == ssa.Value(fn.Params[i]) {
-						return true
-					}
-				}
-				return false
-			}
-			atoms := map[string]Atom{}
-			for _, a := range w.atomsOf(fn) {
-				atoms[a.Key] = a
-			}
-			for _, b := range fn.Blocks {
-				if !rl.Body.Dominates(b) || len(b.Instrs) == 0 {
-					continue
-				}
-				ret, ok := b.Instrs[len(b.Instrs)-1].(*ssa.Return)
-				if !ok {
-					continue
-				}
-				nExit++
-				ctrl := w.controlAtoms(fn, ret)
-				nKey := 0
-				for k, val := range ctrl {
-					if k == bound {
-						continue
-					}
-					a := atoms[k]
-					if a.Kind == "eq" && val && ((isKey(a.X) && wanted(a.Y)) || (isKey(a.Y) && wanted(a.X))) {
-						nKey++
-						continue
-					}
-					if a.Kind == "eqstr" && val && isKey(a.X) {
-						nKey++
-						continue
-					}
-					good = false
-					why = "the match additionally depends on " + k
-				}
-				if nKey != 1 {
-					good = false
-					if why == "" {
-						why = "the early exit is not conditioned on entry.Key == name"
-					}
-				}
-			}
-		}
-		if nExit == 0 {
-			good = false
-			why = "no early exit at the matching entry"
-		}
+		good, why := w.kvFindFirst(fn)
 		c.check(good, rule, name+"/kv-find", w.pos(fn.Pos()), "takes the first entry whose Key equals the wanted name, whatever its value", name+" does not simply take the first entry whose key matches ("+why+"): a parameter that is present (e.g. a valueless ;rport or ;lr) is reported absent, or a later duplicate wins")
 	}
 }
@@ -979,4 +909,167 @@ func ruleHeaderFind(c *Ctx, rule string) {
 		}
 	}
 	c.check(good, rule, "GetHeader/first-match", w.pos(f.Pos()), "the first header line the comparator accepts is returned", "GetHeader does not return the first header, in list order, accepted by isSameHeader ("+why+"): with mixed spellings (v: above Via:) the 'top' Via/Route is no longer the first line, so the wrong entry is stamped, popped or used as the response hop")
+}
+
+// ---------- counting loops over a list field, as an alternative spelling of a range loop ----------
+
+// scanLoops returns the range loops of fn plus its counting loops `for i := 0; i < len(x.f); i++` over a list field
+// (Over is then the load of the field measured in the loop condition; the element is x.f[i] for any load of the same
+// field of the same object, provided the loop does not store to that field).
+func (w *World) scanLoops(fn *ssa.Function) []*rangeLoop {
+	out := rangeLoops(fn)
+	for _, b := range fn.Blocks {
+		if b.Comment != "for.loop" || len(b.Instrs) == 0 {
+			continue
+		}
+		ifi, ok := b.Instrs[len(b.Instrs)-1].(*ssa.If)
+		if !ok {
+			continue
+		}
+		cmp, ok := ifi.Cond.(*ssa.BinOp)
+		if !ok || cmp.Op != token.LSS {
+			continue
+		}
+		ph, ok := cmp.X.(*ssa.Phi)
+		if !ok || len(ph.Edges) != 2 {
+			continue
+		}
+		zero, step := false, false
+		for _, e := range ph.Edges {
+			if k, isK := constInt(e); isK && k == 0 {
+				zero = true
+			} else if isPlusOne(e, ph) {
+				step = true
+			}
+		}
+		over, isLen := lenOf(cmp.Y)
+		if !zero || !step || !isLen {
+			continue
+		}
+		ref, _ := loadedField(over)
+		if ref == "" {
+			continue
+		}
+		rl := &rangeLoop{Fn: fn, Header: b, Body: b.Succs[0], Done: b.Succs[1], Idx: ph, Over: over, If: ifi, Counting: true}
+		// the list field itself is not replaced inside the loop
+		replaced := false
+		for _, st := range w.fieldStores(fn, ref) {
+			if rl.inLoop(st.Block()) {
+				replaced = true
+			}
+		}
+		if !replaced {
+			out = append(out, rl)
+		}
+	}
+	return out
+}
+
+// kvLoops: the loops of fn that walk a KeyValue list field of fn's receiver.
+func (w *World) kvLoops(fn *ssa.Function) []*rangeLoop {
+	var loops []*rangeLoop
+	for _, rl := range w.scanLoops(fn) {
+		if rl.Over == nil || rl.IsMap {
+			continue
+		}
+		if ref, base := loadedField(rl.Over); ref != "" && isParam(fn, base, 0) {
+			if sl, ok := rl.Over.Type().Underlying().(*types.Slice); ok && strings.HasSuffix(sl.Elem().String(), "KeyValue") {
+				loops = append(loops, rl)
+			}
+		}
+	}
+	return loops
+}
+
+// kvFindFirst: every early exit (return) taken from inside a KeyValue walk of fn is conditioned on exactly
+// "current entry's Key == wanted name" (a parameter or a constant) and on nothing else.
+func (w *World) kvFindFirst(fn *ssa.Function) (bool, string) {
+	loops := w.kvLoops(fn)
+	good, nExit := true, 0
+	why := ""
+	for _, rl := range loops {
+		bound := w.atom(rl.If.Cond).Key
+		isKey := func(v ssa.Value) bool {
+			v = strip(v)
+			if f, ok := v.(*ssa.Field); ok {
+				return rl.isElem(f.X) && fieldName(f.X.Type(), f.Field) == "Key"
+			}
+			if a, ok := isDeref(v); ok {
+				if fa, ok := a.(*ssa.FieldAddr); ok && fieldName(fa.X.Type(), fa.Field) == "Key" {
+					if ia, ok := fa.X.(*ssa.IndexAddr); ok {
+						return rl.sameList(ia.X) && ia.Index == rl.Idx
+					}
+					// the loop variable: a local cell holding a copy of the current element
+					if al, ok := fa.X.(*ssa.Alloc); ok {
+						n, okAll := 0, true
+						for _, r := range *al.Referrers() {
+							if st, ok := r.(*ssa.Store); ok && st.Addr == ssa.Value(al) {
+								n++
+								if !rl.isElem(st.Val) {
+									okAll = false
+								}
+							}
+						}
+						return n == 1 && okAll
+					}
+				}
+			}
+			return false
+		}
+		wanted := func(v ssa.Value) bool {
+			v = strip(v)
+			if _, ok := constString(v); ok {
+				return true
+			}
+			for i := 1; i < len(fn.Params); i++ {
+				if v == ssa.Value(fn.Params[i]) {
+					return true
+				}
+			}
+			return false
+		}
+		atoms := map[string]Atom{}
+		for _, a := range w.atomsOf(fn) {
+			atoms[a.Key] = a
+		}
+		for _, b := range fn.Blocks {
+			if !rl.Body.Dominates(b) || len(b.Instrs) == 0 {
+				continue
+			}
+			ret, ok := b.Instrs[len(b.Instrs)-1].(*ssa.Return)
+			if !ok {
+				continue
+			}
+			nExit++
+			ctrl := w.controlAtoms(fn, ret)
+			nKey := 0
+			for k, val := range ctrl {
+				if k == bound {
+					continue
+				}
+				a := atoms[k]
+				if a.Kind == "eq" && val && ((isKey(a.X) && wanted(a.Y)) || (isKey(a.Y) && wanted(a.X))) {
+					nKey++
+					continue
+				}
+				if a.Kind == "eqstr" && val && isKey(a.X) {
+					nKey++
+					continue
+				}
+				good = false
+				why = "the match additionally depends on " + k
+			}
+			if nKey != 1 {
+				good = false
+				if why == "" {
+					why = "the early exit is not conditioned on entry.Key == name"
+				}
+			}
+		}
+	}
+	if nExit == 0 {
+		good = false
+		why = "no early exit at the matching entry"
+	}
+	return good, why
 }
